@@ -34,6 +34,14 @@ ASSUMPTIONS = [
 WORKERS = 16
 TIMEOUT = {"quick": 1500, "thorough": 10800}
 
+PARAMS = ["slope", "intercept"]
+
+
+def pos_vec(position):
+    """[intercept, slope] as the coefficient vector of the design matrix [1, x]."""
+    return np.array([float(np.asarray(position["intercept"])), float(np.asarray(position["slope"]))])
+
+
 ALPHA5 = np.array([-1.0, -0.5, 0.0, 0.25, 1.0], np.float32)
 ALPHA6 = np.array([-1.0, -0.5, 0.0, 0.25, 1.0, 2.0], np.float32)
 
@@ -152,7 +160,10 @@ def build_model(n, seed, tag, log, with_prior=True):
     rng = np.random.default_rng(seed)
     X = np.c_[np.ones(n), rng.normal(size=n)].astype(np.float32)
     y = (X @ np.array([0.5, 1.2]) + rng.normal(size=n)).astype(np.float32)
-    coef = lsl.param(jnp.zeros(2), lsl.Dist(tfd.Normal, loc=0.0, scale=10.0), name="coef")
+    # two scalar parameters, later listed as ["slope", "intercept"] (not alphabetical)
+    slope = lsl.param(jnp.zeros(()), lsl.Dist(tfd.Normal, loc=0.0, scale=10.0), name="slope")
+    intercept = lsl.param(jnp.zeros(()), lsl.Dist(tfd.Normal, loc=0.0, scale=10.0), name="intercept")
+    coef = lsl.Var(lsl.Calc(lambda i_, s_: jnp.stack([i_, s_]), intercept, slope), name="coef")
     x = lsl.obs(X, name="x")
     ids = lsl.obs(jnp.arange(n), name="ids")
 
@@ -216,7 +227,7 @@ def case_optim(case, res):
     state_before = {k: np.asarray(v.value) for k, v in model.state.items() if v.value is not None}
     log.clear()
     with liesel_call(res, "optim_flat", desc):
-        out = gs.optim_flat(model, ["coef"], optimizer=optax.adam(lr), stopper=stopper,
+        out = gs.optim_flat(model, PARAMS, optimizer=optax.adam(lr), stopper=stopper,
                             model_validation=val, restore_best_position=restore,
                             prune_history=prune, save_position_history=save_hist,
                             progress_bar=False, **kwargs)
@@ -239,10 +250,13 @@ def case_optim(case, res):
         res.violation("history-length", f"history shapes {lv.shape}/{lt.shape}, iteration {it}, prune={prune}, "
                       f"nan pattern {np.isnan(lv).astype(int).tolist()}", desc)
     if save_hist:
-        ph = np.asarray(H["position"]["coef"])
         exp_len = it + 1 if prune else stopper.max_iter
-        if ph.shape[0] != exp_len or np.isnan(ph[: it + 1]).any() or not np.isnan(ph[it + 1:]).all():
-            res.violation("history-length", f"position history shape {ph.shape}, iteration {it}, prune={prune}", desc)
+        if set(H["position"]) != set(PARAMS):
+            res.violation("history-length", f"position history has keys {sorted(H['position'])}, parameters are {PARAMS}", desc)
+        for pk in PARAMS:
+            ph = np.asarray(H["position"][pk])
+            if ph.shape[0] != exp_len or np.isnan(ph[: it + 1]).any() or not np.isnan(ph[it + 1:]).all():
+                res.violation("history-length", f"position history of {pk}: shape {ph.shape}, iteration {it}, prune={prune}", desc)
     else:
         if H["position"] is not None:
             res.violation("history-length", "position history present although not requested", desc)
@@ -273,27 +287,39 @@ def case_optim(case, res):
         if ib != exp_ib:
             res.violation("best-iteration", f"iteration_best={ib}, arg-min of validation loss over final window "
                           f"[{lo},{it}] is {exp_ib}: {lv[lo: it + 1].tolist()}", desc)
-    pos = np.asarray(out.position["coef"])
-    if restore:
+    if set(out.position) != set(PARAMS):
+        res.violation("restored-position", f"returned position has keys {sorted(out.position)}, parameters are {PARAMS}", desc)
+        return
+    pos = pos_vec(out.position)
+    if restore or save_hist:
         res.mon("position_is_recorded_best")
-        ph = np.asarray(H["position"]["coef"])
-        if not np.array_equal(pos, ph[ib]):
-            res.violation("restored-position", f"returned position {pos.tolist()} != recorded position at "
-                          f"iteration_best={ib}: {ph[ib].tolist()}", desc)
-    elif save_hist:
-        res.mon("position_is_recorded_best")
-        ph = np.asarray(H["position"]["coef"])
-        if not np.array_equal(pos, ph[it]):
-            res.violation("last-position", f"restore_best_position=False: returned {pos.tolist()} != last recorded {ph[it].tolist()}", desc)
+        at = ib if restore else it
+        for pk in PARAMS:
+            rec = np.asarray(H["position"][pk])[at]
+            if not np.array_equal(np.asarray(out.position[pk]), rec):
+                res.violation("restored-position" if restore else "last-position",
+                              f"returned {pk} = {np.asarray(out.position[pk]).tolist()} != recorded {pk} at iteration "
+                              f"{at} ({'best' if restore else 'last'}): {rec.tolist()}; full returned position "
+                              f"{ {k: float(np.asarray(v)) for k, v in out.position.items()} }", desc)
+                break
+    # --- the validation loss recorded at the reported iteration belongs to the returned position
+    if mode != "validation" and b is None and (restore or save_hist):
+        at = ib if restore else it
+        nlp = -float(np.sum(-0.5 * (y - X @ pos.astype(np.float64)) ** 2 - 0.5 * np.log(2 * np.pi))
+                     + np.sum(-0.5 * (pos.astype(np.float64) / 10) ** 2 - np.log(10.0) - 0.5 * np.log(2 * np.pi)))
+        res.mon("loss_at_reported_iteration_matches_position")
+        if abs(nlp - float(lt[at])) > 2e-3 * (1 + abs(nlp)):
+            res.violation("restored-position", f"training loss recorded at iteration {at} is {float(lt[at])}, the returned position has "
+                          f"loss {nlp}", desc)
     # --- returned state consistent with returned position
     res.mon("state_consistent")
     st = out.model_state
     lp_expected = float(np.sum(-0.5 * (y - X @ pos.astype(np.float64)) ** 2 - 0.5 * np.log(2 * np.pi))
                         + np.sum(-0.5 * (pos.astype(np.float64) / 10) ** 2 - np.log(10.0) - 0.5 * np.log(2 * np.pi)))
-    cv = np.asarray(st["coef_value"].value)
+    cv = np.array([float(st["intercept_value"].value), float(st["slope_value"].value)])
     mu = np.asarray(st["mu_value"].value)
     lp = float(st["_model_log_prob"].value)
-    if not np.array_equal(cv, pos) or not np.allclose(mu, X @ pos, atol=1e-4) or abs(lp - lp_expected) > 1e-3 * (1 + abs(lp_expected)):
+    if not np.array_equal(cv.astype(np.float32), pos.astype(np.float32)) or not np.allclose(mu, X @ pos, atol=1e-4) or abs(lp - lp_expected) > 1e-3 * (1 + abs(lp_expected)):
         res.violation("state-inconsistent", f"returned state: coef {cv.tolist()} vs position {pos.tolist()}, "
                       f"log_prob {lp} vs {lp_expected}", desc)
     ys = np.asarray(st["y_value"].value)
